@@ -93,3 +93,13 @@ Theorem C18_config_map_rejects_misaligned : forall (L : Type) default (m : list 
   config_map_init default m = Err "ErrorInitStoreConfig".
 Proof. exact @config_map_rejects_misaligned. Qed.
 Print Assumptions C18_config_map_rejects_misaligned.
+
+(* apply_pool = apply with the argument shapes READ FROM THE SOURCE: what arg_gen() yields to the pool (VALUES: v, ITEMS: (k, v)) are
+   the positional arguments apply_iter_items passes sequentially, for both yield types; a change of either side breaks this proof. *)
+Theorem C18_pool_eq_sequential_source_shapes : forall (K V B : Type) (f : list (K + V) -> res B) (items_form : bool)
+    kind k c pi (items : list (K * V)),
+  1 <= k -> (kind = Procs -> 1 <= c) ->
+  M_apply_pool (shape_args (c18_pool_shape items_form)) f kind k c pi items
+  = S_apply (shape_args (c18_seq_shape items_form)) f items.
+Proof. exact @apply_pool_eq_sequential_src. Qed.
+Print Assumptions C18_pool_eq_sequential_source_shapes.
